@@ -95,6 +95,8 @@ theorem good_rpcPass : ∀ s s' : St, Good s → step s .rpcPass = some s' → G
 theorem good_rpcSourceGone : ∀ s s' : St, Good s → step s .rpcSourceGone = some s' → Good s' := by lc_good
 theorem good_flagOn : ∀ s s' : St, Good s → step s .flagOn = some s' → Good s' := by lc_good
 theorem good_flagOff : ∀ s s' : St, Good s → step s .flagOff = some s' → Good s' := by lc_good
+theorem good_scStartRefused : ∀ s s' : St, Good s → step s .scStartRefused = some s' → Good s' := by lc_good
+theorem good_scStopNotActive : ∀ s s' : St, Good s → step s .scStopNotActive = some s' → Good s' := by lc_good
 theorem good_flagRefresh : ∀ s s' : St, Good s → step s .flagRefresh = some s' → Good s' := by lc_good
 theorem good_prepared (f : Nat) : ∀ s s' : St, Good s → step s (.prepared f) = some s' → Good s' := by lc_good
 theorem good_gotRequest (n : Nat) (w : WEff) : ∀ s s' : St, Good s → step s (.gotRequest n w) = some s' → Good s' := by lc_good
@@ -142,6 +144,8 @@ theorem good_step {s s' : St} {e : Ev} (h : Good s) (hs : step s e = some s') : 
   | flagOn => exact good_flagOn s s' h hs
   | flagOff => exact good_flagOff s s' h hs
   | flagRefresh => exact good_flagRefresh s s' h hs
+  | scStartRefused => exact good_scStartRefused s s' h hs
+  | scStopNotActive => exact good_scStopNotActive s s' h hs
   | prepared f => exact good_prepared f s s' h hs
   | gotRequest n w => exact good_gotRequest n w s s' h hs
 
@@ -209,6 +213,8 @@ theorem goodE_rpcPass : ∀ s s' : St, Good s → GoodE s → envOK s .rpcPass =
 theorem goodE_rpcSourceGone : ∀ s s' : St, Good s → GoodE s → envOK s .rpcSourceGone = true → step s .rpcSourceGone = some s' → GoodE s' := by lc_goodE
 theorem goodE_flagOn : ∀ s s' : St, Good s → GoodE s → envOK s .flagOn = true → step s .flagOn = some s' → GoodE s' := by lc_goodE
 theorem goodE_flagOff : ∀ s s' : St, Good s → GoodE s → envOK s .flagOff = true → step s .flagOff = some s' → GoodE s' := by lc_goodE
+theorem goodE_scStartRefused : ∀ s s' : St, Good s → GoodE s → envOK s .scStartRefused = true → step s .scStartRefused = some s' → GoodE s' := by lc_goodE
+theorem goodE_scStopNotActive : ∀ s s' : St, Good s → GoodE s → envOK s .scStopNotActive = true → step s .scStopNotActive = some s' → GoodE s' := by lc_goodE
 theorem goodE_flagRefresh : ∀ s s' : St, Good s → GoodE s → envOK s .flagRefresh = true → step s .flagRefresh = some s' → GoodE s' := by lc_goodE
 theorem goodE_prepared (f : Nat) : ∀ s s' : St, Good s → GoodE s → envOK s (.prepared f) = true → step s (.prepared f) = some s' → GoodE s' := by lc_goodE
 theorem goodE_gotRequest (n : Nat) (w : WEff) : ∀ s s' : St, Good s → GoodE s → envOK s (.gotRequest n w) = true → step s (.gotRequest n w) = some s' → GoodE s' := by lc_goodE
@@ -257,6 +263,8 @@ theorem goodE_step {s s' : St} {e : Ev} (h : Good s) (he : GoodE s) (hok : envOK
   | flagOn => exact goodE_flagOn s s' h he hok hs
   | flagOff => exact goodE_flagOff s s' h he hok hs
   | flagRefresh => exact goodE_flagRefresh s s' h he hok hs
+  | scStartRefused => exact goodE_scStartRefused s s' h he hok hs
+  | scStopNotActive => exact goodE_scStopNotActive s s' h he hok hs
   | prepared f => exact goodE_prepared f s s' h he hok hs
   | gotRequest n w => exact goodE_gotRequest n w s s' h he hok hs
 
@@ -321,6 +329,8 @@ theorem goodW_rpcPass : ∀ s s' : St, Good s → GoodW s → Ev.wf .rpcPass = t
 theorem goodW_rpcSourceGone : ∀ s s' : St, Good s → GoodW s → Ev.wf .rpcSourceGone = true → step s .rpcSourceGone = some s' → GoodW s' := by lc_goodW
 theorem goodW_flagOn : ∀ s s' : St, Good s → GoodW s → Ev.wf .flagOn = true → step s .flagOn = some s' → GoodW s' := by lc_goodW
 theorem goodW_flagOff : ∀ s s' : St, Good s → GoodW s → Ev.wf .flagOff = true → step s .flagOff = some s' → GoodW s' := by lc_goodW
+theorem goodW_scStartRefused : ∀ s s' : St, Good s → GoodW s → Ev.wf .scStartRefused = true → step s .scStartRefused = some s' → GoodW s' := by lc_goodW
+theorem goodW_scStopNotActive : ∀ s s' : St, Good s → GoodW s → Ev.wf .scStopNotActive = true → step s .scStopNotActive = some s' → GoodW s' := by lc_goodW
 theorem goodW_flagRefresh : ∀ s s' : St, Good s → GoodW s → Ev.wf .flagRefresh = true → step s .flagRefresh = some s' → GoodW s' := by lc_goodW
 theorem goodW_prepared (f : Nat) : ∀ s s' : St, Good s → GoodW s → Ev.wf (.prepared f) = true → step s (.prepared f) = some s' → GoodW s' := by lc_goodW
 theorem goodW_gotRequest (n : Nat) (w : WEff) : ∀ s s' : St, Good s → GoodW s → Ev.wf (.gotRequest n w) = true → step s (.gotRequest n w) = some s' → GoodW s' := by lc_goodW
@@ -384,6 +394,8 @@ theorem goodW_step {s s' : St} {e : Ev} (hg : Good s) (hw : GoodW s) (hwf : e.wf
   | flagOn => exact goodW_flagOn s s' hg hw hwf hs
   | flagOff => exact goodW_flagOff s s' hg hw hwf hs
   | flagRefresh => exact goodW_flagRefresh s s' hg hw hwf hs
+  | scStartRefused => exact goodW_scStartRefused s s' hg hw hwf hs
+  | scStopNotActive => exact goodW_scStopNotActive s s' hg hw hwf hs
   | prepared f => exact goodW_prepared f s s' hg hw hwf hs
   | gotRequest n w => exact goodW_gotRequest n w s s' hg hw hwf hs
 
